@@ -8,6 +8,7 @@ package cron
 // is the cronexpr library (ASSUMED: the least instant > t, on a whole second, matching e in t's location, or
 // the zero time if there is none). Only "zero or strictly later" is used by the proofs below.
 //@ pure cronNext(e Expression, from time.Time) time.Time
+//@ axiom next-whole-second: forall e Expression, t time.Time :: ns(cronNext(e, t)) == cronNext(e, t).Unix() * 1000000000
 //@ axiom next-zero-or-later: forall e Expression, t time.Time :: cronNext(e, t).IsZero() || ns(cronNext(e, t)) > ns(t)
 
 //@ extern func iface github.com/furiko-io/furiko/pkg/execution/util/cron.Expression.Next
